@@ -1581,6 +1581,9 @@ func checkEquality(v1, v2 reflect.Value) bool {
 }
 
 func isTrue(v reflect.Value) bool {
+	// a value taken out of an interface{} slot (an element of []interface{} or of a
+	// map[string]interface{} that became the context of a range) is judged by what it holds
+	v = indirectEface(v)
 	return v.IsValid() && !v.IsZero()
 }
 
